@@ -7,6 +7,9 @@ stabiliser of the star's first state and sum_a v_a v_a^T = that projector; `oute
 class values every expansion (GFexpansion, rateexpansions, biasexpansions, bareexpansions with omega2 False/True,
 originstateVectorBasisfolddown) contracted with the values equals V^T M V (or V^T b) of the state-space matrix /
 vector assembled jump by jump.  Workload: named + random crystals (2-D/3-D, 1-3 sites), N = 1..3 with <= 170 states.
+History workload: ONE VectorStarSet object (started empty or from the constructor) is generate()d for a sequence of 2-3
+different star sets of the same network (range stepped, origin states switched); after every step all basis clauses are
+re-checked against the star set handed in last and the object is compared with a fresh VectorStarSet of that star set.
 """
 import numpy as np
 from vmon import gen
@@ -17,8 +20,19 @@ ID = 'C25'
 RULE = ('crystal as in C24 (35% named, else random Bravais type, 1-2 species, <=3 sites); kinetic star set N in 1..3 limited '
         'to <= 170 states (230 in the thorough tier; N=3 only on small crystals), origin states on in 85% of the cases; omega1/omega2 networks from the '
         'star set, optionally pruned like VacancyMediated.generate; random positive class rates / escape rates / GF values; '
-        'non-trivial = more than one vector star; distinct = (structure kind, sites, |G|, N, states, vector stars, origin stars)')
-ASSUMPTIONS = ['reference space group = vmon.ref.geom.full_group; invariant subspaces from the group-average projector',
+        'non-trivial = more than one vector star; distinct = (structure kind, sites, |G|, N, states, vector stars, origin stars). '
+        'Reuse histories (one per crystal, own random stream): the same VectorStarSet object - created empty (40%) or by the '
+        'constructor for the first star set - is generate()d for 2-3 consecutive, different (N, originstates) star sets (new '
+        'StarSet objects) of the same crystal and jump network, ranges with <= 120 states: N stepped up 1->2(->3) (35%), '
+        'origin states switched at fixed N (15%), or a random walk over the configurations (50%; ranges also shrink); after '
+        'every generate() the clauses structure/orthonormal/equivariant/count/span/outer are evaluated for the object '
+        'against the star set of that step (tag reused-object) and vecpos/vecvec/outer/Nvstars are compared with a fresh '
+        'object; distinct = (kind, sites, |G|, history, start)')
+ASSUMPTIONS = ['a VectorStarSet that has been generate()d for a star set is a basis for THAT star set, whatever it held before '
+               '(generate() is the documented way to construct the vector stars for a StarSet); only new StarSet objects are '
+               'handed in (generate() returns at once for the identical object); reused and fresh object built from the same '
+               'StarSet object in the same process are compared to 1e-12 absolute',
+               'reference space group = vmon.ref.geom.full_group; invariant subspaces from the group-average projector',
                'orthonormality/equivariance/projector tolerance 1e-9',
                'arrays the class passes through zeroclean(threshold 1e-8) (outer, all expansions) are compared with tolerance '
                '2e-8 x max(1, sum |values|): an entry below 1e-8 is legitimately zeroed',
@@ -35,11 +49,15 @@ REQUIRED_OBS = {'vectorstarsets_checked': 60, 'eval:C25:orthonormal': 60, 'eval:
                 'eval:C25:outer': 60, 'eval:C25:GFexpansion': 50, 'eval:C25:rate1expansion': 100, 'eval:C25:rate1escape': 100,
                 'eval:C25:rate0expansion': 100, 'eval:C25:rate0escape': 100, 'eval:C25:bias1expansion': 100,
                 'eval:C25:bias0expansion': 100, 'eval:C25:bare': 100, 'origin_vectorstars': 20, 'om2_origin_terms': 10,
-                'perp_vectorstars': 50, 'dim2_sets': 10, 'multisite_sets': 15, 'pruned_networks': 10}
+                'perp_vectorstars': 50, 'dim2_sets': 10, 'multisite_sets': 15, 'pruned_networks': 10,
+                'reuse_histories': 50, 'reuse_steps': 70, 'reuse_steps_basis_checked': 70, 'eval:C25:reuse=fresh': 120,
+                'reuse_step:range_changed': 25, 'reuse_step:origin_switched': 25, 'reuse_step:smaller_starset': 15,
+                'reuse_histories:empty': 10, 'reuse_histories:constructor': 10}
 CASE_TIMEOUT = 400
 PER_CASE = 2
 CHUNK = 2
 TOLZ = 2e-8
+HIST_STATES = 120
 
 
 def cases(tier, seed):
@@ -59,6 +77,151 @@ def dense_fields(vs, nstates, dim):
 def proj2(V, W):
     """V^T W V for a state-space matrix W"""
     return np.einsum('and,nm,bmd->ab', V, W, V, optimize=True)
+
+
+def basis_clauses(mon, pg, ss, vs, keys, index, det, xt=(), coverage=True):
+    """The basis clauses of C25 (structure, orthonormal, equivariant, count, span, outer) for the vector stars held by
+    `vs`, read as a basis for the star set `ss`.  -> (V, vstar_star), or None when the fields cannot be unpacked / the
+    star set is not closed.  xt: extra tags; coverage: also feed the workload counters."""
+    xt = list(xt)
+    dim = pg.dim
+    n = len(keys)
+    # ---- structure -------------------------------------------------------------------------
+    struct_ok = (len(vs.vecpos) == vs.Nvstars == len(vs.vecvec)) and vs.Nvstars > 0
+    if struct_ok:
+        for pos, vec in zip(vs.vecpos, vs.vecvec):
+            if len(pos) == 0 or not all(0 <= int(x) < n for x in pos):
+                struct_ok = False
+                break
+            st = ss.stars[int(ss.index[pos[0]])]
+            if [int(x) for x in pos] != [int(x) for x in st] or len(vec) != len(pos) or \
+                    any(np.shape(v) != (dim,) for v in vec):
+                struct_ok = False
+                break
+    if not mon.check(struct_ok, 'C25:structure', lambda: 'vecpos/vecvec are not fields over complete stars %s' % det(), tags=xt):
+        return None
+    V = dense_fields(vs, n, dim)
+    vstar_star = [int(ss.index[pos[0]]) for pos in vs.vecpos]
+    # ---- orthonormal -----------------------------------------------------------------------
+    gram = np.einsum('and,bnd->ab', V, V)
+    mon.close(gram, np.eye(vs.Nvstars), 1e-9, 'C25:orthonormal', det, tags=xt)
+    # ---- equivariant -----------------------------------------------------------------------
+    perms = pg.state_perms(keys, index)
+    closed = all(np.all(p >= 0) for p in perms)
+    if not closed:
+        mon.count('starset_not_closed')  # C24's business
+        return None
+    erra = np.zeros(vs.Nvstars)
+    for p, op in zip(perms, pg.ops):
+        erra = np.maximum(erra, np.max(np.abs(V[:, p, :] - V @ op[3].T), axis=(1, 2)))
+    # regime: stars whose stabiliser is exactly {1, two-fold rotation about the separation} (3-D only)
+    c2stars = set()
+    stab = {}
+    for si, st in enumerate(ss.stars):
+        rots = pg.stabilizer_rots(keys[st[0]])
+        stab[si] = rots
+        if dim == 3 and len(rots) == 2 and not pg.iszero(keys[st[0]]):
+            R2 = [r for r in rots if not np.allclose(r, np.eye(3), atol=1e-6)]
+            dxs = pg.dx(keys[st[0]])
+            if len(R2) == 1 and np.linalg.det(R2[0]) > 0 and abs(np.trace(R2[0]) + 1) < 1e-6 and \
+                    np.allclose(R2[0] @ dxs, dxs, atol=1e-6):
+                c2stars.add(si)
+    if coverage: mon.count('c2_axis_stars', len(c2stars))
+    for grp, gtags in ((False, []), (True, ['C2-axis-stabiliser'])):
+        sel = [a for a in range(vs.Nvstars) if (vstar_star[a] in c2stars) == grp]
+        if not sel: continue
+        err = float(np.max(erra[sel]))
+        mon.check(err < 1e-9, 'C25:equivariant', lambda: 'max |v(g.s) - g.v(s)| = %.3e (vector stars %s) %s' % (
+            err, [a for a in sel if erra[a] >= 1e-9][:6], det()), tags=gtags + xt)
+    # ---- count and completeness per star ---------------------------------------------------
+    nper = {}
+    for a, si in enumerate(vstar_star): nper.setdefault(si, []).append(a)
+    for si, st in enumerate(ss.stars):
+        k0 = keys[st[0]]
+        P = geom.vector_projector(stab[si])
+        want = int(round(np.trace(P)))
+        mine = nper.get(si, [])
+        iso = pg.iszero(k0)
+        mon.check(len(mine) == want, 'C25:count',
+                  lambda: 'star %d (first state %s, %d states): %d vector stars, invariant space of the stabiliser has '
+                          'dimension %d %s' % (si, k0, len(st), len(mine), want, det()),
+                  tags=(['C2-axis-stabiliser'] if si in c2stars else []) + xt)
+        if len(mine) == want:
+            S = sum((np.outer(V[a, st[0]], V[a, st[0]]) for a in mine), np.zeros((dim, dim))) * len(st)
+            mon.close(S, P, 1e-9, 'C25:span=invariant-space', lambda: 'star %d first state %s %s' % (si, k0, det()), tags=xt)
+        if coverage:
+            mon.count('origin_vectorstars', len(mine) if iso else 0)
+            mon.count('perp_vectorstars', max(len(mine) - 1, 0) if not iso else 0)
+            mon.seen('vstars_per_star', len(mine))
+    # ---- outer -----------------------------------------------------------------------------
+    mon.close(np.asarray(vs.outer), np.einsum('and,bne->deab', V, V), TOLZ, 'C25:outer', det, tags=xt)
+    return V, vstar_star
+
+
+def reuse_history(mon, rng, stars, pg, crys, chem, jn, desc, kind, okN):
+    """ONE VectorStarSet object generate()d for a sequence of 2-3 different star sets of the same crystal / jump network
+    (range stepped up or down, origin states switched on/off).  After every step the object has to be a correct basis for
+    the star set it was handed last (all basis clauses), and the same as a fresh VectorStarSet of that star set."""
+    confs = [(N, o) for N in okN for o in (True, False)]
+    nsteps = 3 if len(confs) > 2 and rng.uniform() < 0.6 else 2
+    mode = rng.uniform()
+    if mode < 0.35 and len(okN) >= 2:       # stepping the range up: N = 1 -> 2 (-> 3), as one does for convergence
+        o = bool(rng.uniform() < 0.8)
+        seq = [(N, o) for N in okN[:3]]
+        if len(seq) < 3 and nsteps == 3: seq.append((seq[-1][0], not o))
+        seq = seq[:max(nsteps, 2)]
+    elif mode < 0.5:                        # same range, origin states switched
+        N = int(okN[int(rng.integers(len(okN)))])
+        o = bool(rng.uniform() < 0.5)
+        seq = [(N, o), (N, not o)] + ([(N, o)] if nsteps == 3 else [])
+    else:                                   # random walk over the configurations, consecutive ones different
+        seq = []
+        for _ in range(nsteps):
+            for t in range(20):
+                c = confs[int(rng.integers(len(confs)))]
+                if not seq or c != seq[-1]: break
+            seq.append(c)
+    if len(seq) > 1 and seq[1] == seq[0]: seq[1] = (seq[0][0], not seq[0][1])
+    start = 'empty' if rng.uniform() < 0.4 else 'constructor'
+    hdesc = dict(desc)
+    hdesc.update({'history': [list(c) for c in seq], 'start': start})
+    vs = None
+    done = []
+    for step, (N, o) in enumerate(seq):
+        det = lambda: 'reused VectorStarSet (%s start) after generate() for (N, originstates) = %s, now step %d %s' % (
+            start, done, step, hdesc)
+        ss = fresh = None
+        with mon.guard('C25:construct', tags=['reused-object']):
+            ss = stars.StarSet(jn, crys, chem, Nshells=int(N), originstates=bool(o))
+            if vs is None:
+                vs = stars.VectorStarSet() if start == 'empty' else stars.VectorStarSet(ss)
+            vs.generate(ss)
+            fresh = stars.VectorStarSet(ss)
+        if ss is None or fresh is None or vs is None: return
+        done.append([int(N), bool(o)])
+        keys = [pairs.key_of(x) for x in ss.states]
+        index = {k: m for m, k in enumerate(keys)}
+        xt = ['reused-object', 'reuse-step-%d' % step]
+        mon.check(vs.starset is ss, 'C25:reuse-starset', lambda: 'the object does not refer to the star set it was generated for %s' % det(), tags=xt)
+        res = basis_clauses(mon, pg, ss, vs, keys, index, det, xt=xt, coverage=False)
+        # the same as a fresh object (same star set object, same process: the construction is deterministic)
+        same = vs.Nvstars == fresh.Nvstars and len(vs.vecpos) == len(fresh.vecpos) and len(vs.vecvec) == len(fresh.vecvec) and \
+            all([int(x) for x in p] == [int(x) for x in q] for p, q in zip(vs.vecpos, fresh.vecpos)) and \
+            all(np.shape(u) == np.shape(w) and np.allclose(u, w, rtol=0, atol=1e-12) for u, w in zip(vs.vecvec, fresh.vecvec)) and \
+            np.shape(vs.outer) == np.shape(fresh.outer) and np.allclose(vs.outer, fresh.outer, rtol=0, atol=1e-12)
+        mon.check(same, 'C25:reuse=fresh', lambda: '%d vector stars, a fresh VectorStarSet of the same star set has %d; %s' % (
+            vs.Nvstars, fresh.Nvstars, det()), tags=xt)
+        if step > 0:
+            mon.count('reuse_steps')
+            mon.count('reuse_step:range_changed', done[-1][0] != done[-2][0])
+            mon.count('reuse_step:origin_switched', done[-1][1] != done[-2][1])
+            mon.count('reuse_step:smaller_starset', len(keys) < nprev)
+            mon.count('reuse_steps_basis_checked', res is not None)
+        nprev = len(keys)
+    mon.count('reuse_histories')
+    mon.count('reuse_histories:' + start)
+    mon.seen('reuse_history_lengths', len(seq))
+    mon.sig(['reuse', kind, pg.N, len(pg.group), [list(c) for c in seq], start])
 
 
 def run_case(case):
@@ -100,74 +263,12 @@ def run_case(case):
         mon.note_max('states', n)
         mon.note_max('vectorstars', vs.Nvstars)
 
-        # ---- structure -------------------------------------------------------------------------
-        struct_ok = (len(vs.vecpos) == vs.Nvstars == len(vs.vecvec)) and vs.Nvstars > 0
-        if struct_ok:
-            for pos, vec in zip(vs.vecpos, vs.vecvec):
-                st = ss.stars[int(ss.index[pos[0]])]
-                if [int(x) for x in pos] != [int(x) for x in st] or len(vec) != len(pos) or \
-                        any(np.shape(v) != (dim,) for v in vec):
-                    struct_ok = False
-                    break
-        if not mon.check(struct_ok, 'C25:structure', lambda: 'vecpos/vecvec are not fields over complete stars %s' % det()):
-            continue
-        V = dense_fields(vs, n, dim)
-        vstar_star = [int(ss.index[pos[0]]) for pos in vs.vecpos]
-        # ---- orthonormal -----------------------------------------------------------------------
-        gram = np.einsum('and,bnd->ab', V, V)
-        mon.close(gram, np.eye(vs.Nvstars), 1e-9, 'C25:orthonormal', det)
-        # ---- equivariant -----------------------------------------------------------------------
-        perms = pg.state_perms(keys, index)
-        closed = all(np.all(p >= 0) for p in perms)
-        if not closed:
-            mon.count('starset_not_closed')  # C24's business
-            continue
-        erra = np.zeros(vs.Nvstars)
-        for p, op in zip(perms, pg.ops):
-            erra = np.maximum(erra, np.max(np.abs(V[:, p, :] - V @ op[3].T), axis=(1, 2)))
-        # regime: stars whose stabiliser is exactly {1, two-fold rotation about the separation} (3-D only)
-        c2stars = set()
-        stab = {}
-        for si, st in enumerate(ss.stars):
-            rots = pg.stabilizer_rots(keys[st[0]])
-            stab[si] = rots
-            if dim == 3 and len(rots) == 2 and not pg.iszero(keys[st[0]]):
-                R2 = [r for r in rots if not np.allclose(r, np.eye(3), atol=1e-6)]
-                dxs = pg.dx(keys[st[0]])
-                if len(R2) == 1 and np.linalg.det(R2[0]) > 0 and abs(np.trace(R2[0]) + 1) < 1e-6 and \
-                        np.allclose(R2[0] @ dxs, dxs, atol=1e-6):
-                    c2stars.add(si)
-        mon.count('c2_axis_stars', len(c2stars))
-        for grp, gtags in ((False, []), (True, ['C2-axis-stabiliser'])):
-            sel = [a for a in range(vs.Nvstars) if (vstar_star[a] in c2stars) == grp]
-            if not sel: continue
-            err = float(np.max(erra[sel]))
-            mon.check(err < 1e-9, 'C25:equivariant', lambda: 'max |v(g.s) - g.v(s)| = %.3e (vector stars %s) %s' % (
-                err, [a for a in sel if erra[a] >= 1e-9][:6], det()), tags=gtags)
-        # ---- count and completeness per star ---------------------------------------------------
-        nper = {}
-        for a, si in enumerate(vstar_star): nper.setdefault(si, []).append(a)
-        for si, st in enumerate(ss.stars):
-            k0 = keys[st[0]]
-            P = geom.vector_projector(stab[si])
-            want = int(round(np.trace(P)))
-            mine = nper.get(si, [])
-            iso = pg.iszero(k0)
-            mon.check(len(mine) == want, 'C25:count',
-                      lambda: 'star %d (first state %s, %d states): %d vector stars, invariant space of the stabiliser has '
-                              'dimension %d %s' % (si, k0, len(st), len(mine), want, det()),
-                      tags=['C2-axis-stabiliser'] if si in c2stars else [])
-            if len(mine) == want:
-                S = sum((np.outer(V[a, st[0]], V[a, st[0]]) for a in mine), np.zeros((dim, dim))) * len(st)
-                mon.close(S, P, 1e-9, 'C25:span=invariant-space', lambda: 'star %d first state %s %s' % (si, k0, det()))
-            mon.count('origin_vectorstars', len(mine) if iso else 0)
-            mon.count('perp_vectorstars', max(len(mine) - 1, 0) if not iso else 0)
-            mon.seen('vstars_per_star', len(mine))
+        res = basis_clauses(mon, pg, ss, vs, keys, index, det)
+        if res is None: continue
+        V, vstar_star = res
         nOS = sum(1 for si in vstar_star if pg.iszero(keys[ss.stars[si][0]]))
         if vs.Nvstars > 1:
             mon.sig([kind, pg.N, len(pg.group), N, n, vs.Nvstars, nOS])
-        # ---- outer -----------------------------------------------------------------------------
-        mon.close(np.asarray(vs.outer), np.einsum('and,bne->deab', V, V), TOLZ, 'C25:outer', det)
 
         # ---- GF expansion ----------------------------------------------------------------------
         with mon.guard('C25:GFexpansion'):
@@ -303,4 +404,10 @@ def run_case(case):
                     mon.close(np.asarray(OSVB), U, TOLZ, 'C25:folddown-basis', det)
                     mon.close(np.dot(fold, x), np.einsum('rcd,cd->r', U, w), TOLZ, 'C25:folddown', det,
                               scale=max(1., float(np.sum(np.abs(x)))))
+
+        # ---- history: one VectorStarSet object re-generated for other star sets ----------------
+        if rep < case.get('nhist', PER_CASE):
+            # history star sets are kept smaller (<= HIST_STATES states; the smallest range is always available)
+            okH = [M for M in okN if len(pg.reachable(M, cap=MAXSTATES)) <= HIST_STATES] or okN[:1]
+            reuse_history(mon, gen.rng_for(case['seed'], case['idx'], 25, 1000 + rep), stars, pg, crys, chem, jn, desc, kind, okH)
     return mon.result(sample=sample)
